@@ -70,13 +70,26 @@ func (in *Interp) ensureSched() *scheduler {
 }
 
 func (s *scheduler) runnable() []*goroutine {
-	var out []*goroutine
-	for _, g := range s.gs {
-		if g.done {
-			continue
+	collect := func() []*goroutine {
+		var out []*goroutine
+		for _, g := range s.gs {
+			if g.done {
+				continue
+			}
+			if g.blocked == nil || g.blocked() {
+				out = append(out, g)
+			}
 		}
-		if g.blocked == nil || g.blocked() {
-			out = append(out, g)
+		return out
+	}
+	out := collect()
+	if len(out) == 0 {
+		// everybody is blocked, somebody in time.Sleep: time passes
+		for _, g := range s.gs {
+			if !g.done && g.why == "sleep" {
+				s.sleepGen++
+				return collect()
+			}
 		}
 	}
 	return out
